@@ -23,6 +23,7 @@ import SlimProps.BridgeSem.DescentStep
 import SlimProps.BridgeSem.LeafAccess
 import SlimProps.BridgeSem.MostLoops
 import SlimProps.BridgeSem.LegacyLeaf
+import SlimProps.BridgeSem.LegacyChildren
 /-
   SlimProps.BridgeSem — tie 1, semantic part: the small pure functions of the Go source, translated
   to Lean on every check run (lean/Generated/Funcs.lean, written by harness/cmd/extract/translate.go
@@ -106,5 +107,8 @@ import SlimProps.BridgeSem.LegacyLeaf
     LegacyLeaf      before000512FixLeafSize_sem (= Legacy.fixLeafSize, panics included; range hypotheses
                     `FixLeafFits`), before000512FixLeafSize_panics, fixLeafSize_loop_sem; the assumed
                     semantics bitmapOf_sem, indexRank64_sem, newBMr64_sem (bitmap.Of, IndexRank64, trie.newBM)
+    LegacyChildren  (`namespace Generated.WL`: package trie checked against the source of package array)
+                    bmhas_sem, U16_Get_sem ((*array.U16).Get = Legacy.u16Get), getStepBefore000510_sem
+                    (= 4 × Legacy.getStep), getBM16Child_sem (= Legacy.getBM16Child, both children encodings)
 -/
 
